@@ -45,6 +45,15 @@ func ZZ_C12_edsIsolation() {
 	}
 	x := zzEDS("ns1", xName, xTpl, canary)
 	y := zzEDS(yNs, yName, zzPickTpl("y.template"), nil)
+	// X's own metadata.labels may carry the reserved name label with Y's name (a manifest
+	// cloned from an object of Y): a legal label that must not redirect X's replica sets
+	xCarriesYsName := !sameName && xName == "foo" && nondet.Bool("x.ownLabelsCarryTheNameOfY")
+	if xCarriesYsName {
+		if x.Labels == nil {
+			x.Labels = map[string]string{}
+		}
+		x.Labels[datadoghqv1alpha1.ExtendedDaemonSetNameLabelKey] = yName
+	}
 	c := fakeapi.New()
 	// X: optionally an active replica set for template A
 	xHasA := nondet.Bool("x.rsA.exists")
@@ -96,6 +105,13 @@ func ZZ_C12_edsIsolation() {
 		}
 		nondet.Assert("C12.eds.foreign-replicaset-kept", still)
 	}
+	// nothing X owns is found by the list Y makes of its replica sets (namespace + name label)
+	for _, s := range c.ERS {
+		if s.Namespace == yNs && s.Labels[datadoghqv1alpha1.ExtendedDaemonSetNameLabelKey] == yName {
+			nondet.Assert("C12.eds.nothing-of-x-is-listed-by-y", !(len(s.OwnerReferences) == 1 && s.OwnerReferences[0].UID == x.UID))
+		}
+	}
+	nondet.Reach("C12.eds.own-labels-carry-the-name-of-y", xCarriesYsName && c.Count("create", "ExtendedDaemonSetReplicaSet") == 1)
 	yAfter := zzStoredEDS(c, yNs, yName)
 	nondet.Assert("C12.eds.foreign-eds-untouched", yAfter != nil && yAfter.Status.ActiveReplicaSet == yBefore.Status.ActiveReplicaSet && zzImage(&yAfter.Spec.Template) == zzImage(&yBefore.Spec.Template))
 	// X's status counts only X's own replica sets, and its active replica set is its own
